@@ -80,7 +80,7 @@ pub fn classes_of(lines: &[Vec<u8>]) -> Vec<&'static str> {
 
 const PRIOR: &[&str] = &["plain output", "x", "* (glob)", "C:\\* (glob)", "a\\?b (glob?)", "?? (glob*)", "x (?)", "", "another line (+)", ".* (regex*)", "foo bar baz (*)"];
 const CMD: &[&str] = &["the command", "cat file", "printf 'a\\n' | sort", "echo $VAR"];
-const CMD_CONT: &[&str] = &["--flag", "| tail", "second line"];
+const CMD_CONT: &[&str] = &["--flag", "| tail", "second line", "", ""];
 
 fn case_strategy() -> BoxedStrategy<GenCase> {
     (
